@@ -843,8 +843,18 @@ def run_c13_blackbox(res, tier, seed):
             # than the editor's buffer: the server analyses the editor's text
             d = docs[2]
             disk_extra = {root + "/free/c.gleam": "pub fn on_disk() {\n  \"" + rand_text(rng, 6).replace('"', "").replace("\\", "").replace("\r", "").replace("\n", " ") + "\"\n}\n"}
+        if i % 8 == 5:
+            # the document is a source file of a DEPENDENCY of the project (registry layout build/packages/<dep>, or a path dependency
+            # next to the project), opened first in the session, on disk with another content than the editor's buffer
+            how = rng.choice(["registry", "path"])
+            depdir = root + ("/build/packages/dep" if how == "registry" else "/../dep_of_" + os.path.basename(root))
+            d = Doc("f3", "file://" + os.path.normpath(depdir) + "/src/dep.gleam")
+            docs = docs[:2] + [d] + docs[3:]
+            disk_extra = {root + "/gleam.toml": 'name = "p"\n\n[dependencies]\n' + ('dep = "~> 1.0"\n' if how == "registry" else f'dep = {{ path = "../dep_of_{os.path.basename(root)}" }}\n'),
+                          os.path.normpath(depdir) + "/gleam.toml": 'name = "dep"\n',
+                          os.path.normpath(depdir) + "/src/dep.gleam": "pub fn on_disk_in_dependency() {\n  1\n}\n"}
         seq = [("open", d, cur)]
-        if rng.random() < 0.5:
+        if rng.random() < 0.5 and i % 8 != 5:
             # another file of the package was opened before: the document is already known to the server with the
             # content it has on disk (another text, another line table) when the editor's version arrives
             seq = [("open", docs[1], rand_text(rng, rng.randrange(0, 12))), ("open", d, cur)]
